@@ -184,7 +184,7 @@ def gen_history(rng):
         ki += 1
         attached = list(F.parent.keys())
         # choose a target container
-        cands = [None] + [h for h in attached if F.depth(h) < 3 and not F.specs[h].get("dashed")]
+        cands = [None] + [h for h in attached if F.depth(h) < 3]
         if kind in ("foreign-arch", "foreign-arch-first-child", "dup-id"):
             cands = [c for c in cands if c is not None or kind == "dup-id"]
             if kind == "foreign-arch-first-child":
@@ -194,7 +194,7 @@ def gen_history(rng):
             pairs += [(d, d) for d in attached]
             if not pairs:
                 kind = "valid"
-                cands = [None] + [h for h in attached if F.depth(h) < 3 and not F.specs[h].get("dashed")]
+                cands = [None] + [h for h in attached if F.depth(h) < 3]
             else:
                 target, h = rng.choice(pairs)
                 verdict, why = F.predict(target, h)
@@ -206,7 +206,7 @@ def gen_history(rng):
             pairs = [(d, a) for d in attached for a in F.ancestors_or_self(d)[1:] if F.depth(d) < 3 or True]
             if not pairs:
                 kind = "valid"
-                cands = [None] + [h for h in attached if F.depth(h) < 3 and not F.specs[h].get("dashed")]
+                cands = [None] + [h for h in attached if F.depth(h) < 3]
             else:
                 target, h = rng.choice(pairs)
                 ops.append({"kind": kind, "target": target, "handle": h, "expect": "refuse", "why": "its own ancestor (re-spelled)"})
@@ -400,10 +400,9 @@ def check_queries(ctx, ci, seen, case, rng, exhaustive):
         for v in real:
             if arch is not None and arch != "src" and arch not in v.arches:
                 probs.append("%s lacks the requested arch %s (has %s)" % (v.uid, arch, sorted(v.arches)))
-            if types and [t for t in types if t != "self"] and v.type not in types:
+            # 'self' stands for the queried variant itself; a filter consisting of 'self' alone still IS a filter
+            if types and v.type not in types:
                 probs.append("%s has type %s, requested %s" % (v.uid, v.type, types))
-            if types == ["self"] and False:
-                pass
         if len(real) != len(res) and not (types and "self" in types):
             probs.append("the container itself is in the result although 'self' was not requested")
         scope = set(id(v) for v in members(cvar, recursive))
